@@ -25,7 +25,10 @@ def valuations(ni, no, env):
     """injective fingerprint valuation + one with zeros/equal values"""
     a = np.array([[1.0 + 10 * i + 0.37 * j + 0.011 * i * j for j in range(no)] for i in range(ni)])
     b = np.array([[(0.0 if (i + j) % 2 else 0.25) for j in range(no)] for i in range(ni)])
-    return [("injective", a), ("zeros_equal", b)]
+    # weights spread over 18 orders of magnitude (rare events next to likely ones; one all-small row)
+    t = np.array([[(1 + 0.37 * j + 0.011 * i * j) * 10.0 ** (-3 * ((2 * i + j) % 7) - (9 if i == 1 else 0)) for j in range(no)]
+                  for i in range(ni)])
+    return [("injective", a), ("zeros_equal", b), ("tiny", t)]
 
 
 def check_simulation_result(ins, outs, env, acc):
@@ -120,14 +123,14 @@ def check_mapped(m, ins, outs, vals, kind, inv, case, acc, times):
             w = want[i].get(o, 0.0)
             try:
                 g = m[S(list(i)), S(list(o))]
-                bad = abs(g - w) > 1e-12 or m.array[a, b] != g or m[S(list(i))][S(list(o))] != g
+                bad = abs(g - w) > 1e-13 * abs(w) or m.array[a, b] != g or m[S(list(i))][S(list(o))] != g
             except Exception as e:  # noqa: BLE001
                 acc.violation("mapped_value", case, {"input": i, "output": o, "error": repr(e), "ref": float(w)})
                 return
             if bad:
                 acc.violation("mapped_value", case, {"input": i, "output": o, "impl": float(g), "ref": float(w)})
                 return
-        if abs(m.array[a].sum() - vals[a].sum()) > 1e-12:
+        if abs(m.array[a].sum() - vals[a].sum()) > 1e-13 * abs(vals[a].sum()):
             acc.violation("input_total_not_conserved", case, {"input": i})
             return
 
